@@ -5,3 +5,6 @@ export CARGO_NET_OFFLINE=true
 cd /verif/symtrace
 cp /repo/Cargo.lock Cargo.lock
 cargo build --release --target-dir /verif/.work/symtrace-target
+cd /verif/native
+cp /repo/Cargo.lock Cargo.lock
+cargo build --release --target-dir /verif/.work/native-target
